@@ -25,3 +25,10 @@ check("C06",
   "For every generated (formula, flavour) the real pipeline builds the design on a complete-factorial training frame whose numeric cells are z3 reals, then evaluates common and group matrices on row multisets of that frame (singles, repetition, reversed, subsets lacking a level). The new matrix must equal the selected training rows as z3 terms: a re-estimated mean/std/first value/level set yields a different term and a two-row model, which is replayed on floats. Branches on symbolic values (e.g. truthiness of a fitted mean) are explored exhaustively.",
   "Trusted: z3; stubs listed in evidence. bs()/orthogonal poly run on concrete floats (FITPACK / float buffer) and only their exact row identity and params_set are checked there. Definitional constraints of quotients / square roots are added lazily (only when an obligation needs them). One known finding (binary() refuses absent level on new rows).",
   "DESIGN.md section 4 C06")
+
+check("C08",
+  "relational symbolic execution: two real runs of design_matrices (data vs transformed data) on z3-real cells compared entrywise by z3",
+  "model_checking",
+  "For every generated (formula, flavour, transformation) the real pipeline runs on a frame with z3-real numeric cells and on its transformed copy (row permutation with/without reset_index, index relabelling incl. duplicate/str/float labels, reversed column order, added unused columns with NaN, NaN-drop under a duplicate index); response, common and group matrices must be equal as z3 terms up to the row permutation, and labels, slices, levels and fitted transform parameters identical.",
+  "Trusted: z3 (incl. its polynomial rewriter used to give equal sums one quotient/root variable); stubs listed in evidence; std != 0. Transformations, formulas and flavours are enumerated. bs() excluded (compiled percentile/splev).",
+  "DESIGN.md section 4 C08")
